@@ -1044,6 +1044,45 @@ Proof.
       rewrite IH. destruct (run sta r). cbn. reflexivity.
 Qed.
 
+(* installing a snapshot on a live replica: the previous table (whatever it
+   holds) has no influence on the result *)
+Lemma load_replaces_table_proved : forall (t1 t2 : table) sv,
+  load_into t1 sv = load_into t2 sv /\ load_into t1 sv = load sv.
+Proof. intros. split; reflexivity. Qed.
+
+(* ... so the replica ends in exactly the state the image was taken from:
+   sessions unregistered or evicted in the image's range do not survive,
+   LRU order and capacity are the image's *)
+Lemma install_replaces_state_proved : forall (st_old st1 : state),
+  inv st1 -> 0 < t_cap (st_tab st1) ->
+  exists sn, snapshot sm_save st1 = Some (sn, st1) /\ install sm_recover st_old sn = Some st1.
+Proof.
+  intros st_old st1 I POS. destruct (snapshot_restore_id st1 I POS) as (sn & H1 & H2).
+  exists sn. split; auto.
+Qed.
+
+(* a lagging replica (applied es0) that installs the image of a replica that
+   applied es0 ++ es1 and then applies es2 is indistinguishable, from then on,
+   from one that applied everything *)
+Lemma lagging_replica_catches_up_proved : forall cap (s0 : S) es0 es1 es2,
+  0 < cap ->
+  let lag := run_state (init_state cap s0) es0 in
+  let lead := run_state (init_state cap s0) (es0 ++ es1) in
+  exists sn, snapshot sm_save lead = Some (sn, lead) /\
+  exists st', install sm_recover lag sn = Some st' /\ st' = lead /\
+              fst (run st' es2) = run_state (init_state cap s0) ((es0 ++ es1) ++ es2) /\
+              snd (run st' es2) = snd (run lead es2).
+Proof.
+  intros cap s0 es0 es1 es2 POS lag lead.
+  destruct (install_replaces_state_proved lag lead) as (sn & H1 & H2).
+  - apply run_inv, init_inv.
+  - destruct (table_wf_reachable_proved cap s0 (es0 ++ es1)) as (_ & _ & E). subst lead. rewrite E. auto.
+  - exists sn. split; auto. exists lead. repeat split; auto.
+    subst lead. generalize (init_state cap s0). generalize (es0 ++ es1). clear.
+    induction l as [|e r IH]; intros st; [reflexivity|].
+    cbn [app]. rewrite !run_state_cons. apply IH.
+Qed.
+
 (* a replica that takes a snapshot after es1, restarts from it and applies es2 *)
 Definition restart_run (cap : N) (s0 : S) (es1 es2 : list entry) : option (state * list outcome) :=
   match snapshot sm_save (run_state (init_state cap s0) es1) with
